@@ -44,9 +44,21 @@ class Check:
         self.assumptions = []
         self.extra = {}
         self.known = load_known()
+        # secondary build configuration (thorough tier): (config name, fn index of the primary configuration)
+        self.secondary = None
+
+    def enter_secondary(self, config, primary_index):
+        """Re-run of the same rules on another cargo feature configuration. Anchors that exist only in the
+        primary configuration are feature-gated there (the primary run decides them); floors were counted on the
+        primary configuration and are informational here; every other obligation is decided on this configuration's MIR."""
+        self.secondary = (config, primary_index)
 
     # ------------------------------------------------------------------
     def ob(self, rule, instance, ok, detail="", where=None, key=None, sample=None, fn=None):
+        if self.secondary:
+            rule = "%s@%s" % (rule, self.secondary[0])
+            if key:
+                key = "%s@%s" % (key, self.secondary[0])
         r = self.rules.setdefault(rule, {"instances": 0, "violations": 0})
         r["instances"] += 1
         rec = {"rule": rule, "instance": instance, "ok": bool(ok), "detail": detail, "where": where}
@@ -64,10 +76,14 @@ class Check:
         return ok
 
     def lost(self, rule, anchor, why="anchor not found in the fact base"):
+        if self.secondary and anchor in self.secondary[1]:
+            return self.ob(rule, "gated:" + anchor, True, "%s exists only with the experimental features; decided on that configuration" % anchor)
         return self.ob(rule, "anchor:" + anchor, False, "anchor lost: %s (%s)" % (anchor, why),
                        key="%s:anchor-lost:%s" % (rule, anchor))
 
     def floor(self, rule, what, found, floor):
+        if self.secondary:
+            return self.ob(rule, "count:" + what, True, "%s: %d instance(s) in configuration %s (floor %d applies to the primary configuration)" % (what, found, self.secondary[0], floor))
         return self.ob(rule, "floor:" + what, found >= floor,
                        "%s: found %d instance(s), floor %d (count confirmed by hand)" % (what, found, floor),
                        key="%s:floor:%s" % (rule, what), sample={"found": found, "floor": floor})
